@@ -24,6 +24,7 @@ INFO = {
         "model/POMDP.v mirror functions and comparators are evaluated on Q (NumQ); theorems are on R; tied by paramcoq transfer (theory/POMDPTransfer.v)",
         "generated probabilities/rewards/beliefs reach the model exactly and msdm as nearest doubles (dyadic except reachable beliefs)",
         "comparison tolerance 1e-12 (absolute + relative) between msdm's floats and the exact mirror values",
+        "harness literals: 53-bit float mantissas enter Coq as primitive Uint63 literals converted by Uint63.to_Z (harness-side only; no theorem depends on it)",
     ],
     "assumptions": [
         "every action is available in every state (the vectorised filter reads transition_matrix, which has zero rows for unavailable actions)",
@@ -31,10 +32,14 @@ INFO = {
     ],
 }
 
-PRE = """From Coq Require Import QArith List Bool.
+PRE = """From Coq Require Import QArith List Bool Uint63.
 From MSDM Require Import base.Num base.NumInst model.MDP model.POMDP.
 Import ListNotations.
 Local Open Scope Q_scope.
+(* msdm's floats m / 2^k with the 53-bit mantissa as a primitive integer literal (a unary-binary
+   positive literal of that size costs ~1 ms to parse and type-check; there are ~10^5 per run) *)
+Definition fp (m : int) (k : N) : Q := Qred (Qmake (Uint63.to_Z m) (Pos.shiftl 1 k)).
+Definition fn (m : int) (k : N) : Q := Qred (Qmake (- Uint63.to_Z m) (Pos.shiftl 1 k)).
 Definition mk := @mk_pomdp Q NumQ.
 Definition wf := @wfpb Q NumQ.
 Definition ome := @obs_matrix_eq Q NumQ.
@@ -54,12 +59,29 @@ def gen_case(rng, tier):
 
 
 # ---- literals -----------------------------------------------------------------
+def fq(x):
+    """Q literal of an implementation float: big dyadic mantissas go through a primitive integer"""
+    f = vlib.frac(x)
+    n, d = abs(f.numerator), f.denominator
+    if n < 10**6 or (d & (d - 1)) or n >= 2**62:
+        return q(f)
+    return "(%s %d %d)" % ("fn" if f < 0 else "fp", n, d.bit_length() - 1)
+
+
+def fqlist(xs):
+    return coqlist(fq(x) for x in xs)
+
+
+def fqmat(m):
+    return coqlist(fqlist(r) for r in m)
+
+
 def dlit(d):
-    return coqlist("(%s, %s)" % (nat(k), q(v)) for k, v in d)
+    return coqlist("(%s, %s)" % (nat(k), fq(v)) for k, v in d)
 
 
 def bnlit(l):
-    return coqlist("(%s, %s)" % (qlist(nb), q(p)) for nb, p in l)
+    return coqlist("(%s, %s)" % (fqlist(nb), fq(p)) for nb, p in l)
 
 
 def has_error(x):
@@ -100,9 +122,9 @@ def case_term(case, res):
         aterms = []
         for ai, r in enumerate(bo["actions"]):
             aterms.append("cba m tol %s %s %s %s %s %s %s %s %s" % (
-                bl, nat(ai), coqlist(dlit(d) for d in r["est_dict"]), qmat(r["est_vec"]),
-                qmat(r["next_agentstate"]), dlit(r["pred_dict"]), qlist(r["pred_vec"]),
-                bnlit(r["belief_next"]), q(r["belief_reward"])))
+                bl, nat(ai), coqlist(dlit(d) for d in r["est_dict"]), fqmat(r["est_vec"]),
+                fqmat(r["next_agentstate"]), dlit(r["pred_dict"]), fqlist(r["pred_vec"]),
+                bnlit(r["belief_next"]), fq(r["belief_reward"])))
         bterms.append("(cb m %s %s, %s)" % (bl, cb_(bo["is_absorbing"]), coqlist(aterms)))
     return "let m := %s in (wf m, ome m %s, %s)" % (mk, qten(res["observation_matrix"]), coqlist(bterms))
 
